@@ -1,4 +1,6 @@
 # C14 — stripTags emits only allow-listed tags/attributes; all else becomes inert text.
+import math
+
 from common import *
 
 ORDINARY = ["p", "a", "b", "i", "br", "img", "div", "span", "ul", "li", "h1", "table", "tr", "td",
@@ -17,7 +19,7 @@ ALLOW_ELEMS = ["p", "a", "b", "i", "br", "img", "div", "span", "ul", "li", "h1",
                "td", "th", "tbody", "em", "strong", "hr", "pre", "svg", "math", "body", "html",
                "head", "x-foo", "font", "col", "wbr", "input", "form", "desc", "mi", "g"]
 ALLOW_ATTRS = ["href", "title", "src", "alt", "class", "id", "style", "onclick", "data-x", "hidden",
-               "width", "xlink:href", "target", "name", "encoding"]
+               "width", "xlink:href", "target", "name", "encoding", "lang", "type", "role"]
 
 WORDS = [b"hello", b"x", b" ", b"a b", b"1 < 2", b"a > b", b"R&D", b"\"q\"", b"it's", b"\r", b"\r\n",
          b"\n", b"\t", b"\x00", b"\xc3\xa9", b"\xe2\x82\xac", b"\xf0\x9f\x98\x80", b"\xff", b"\xc3",
@@ -173,10 +175,36 @@ INTEGRATION = [
 ]
 
 
-def gen_input(rng, names, fav_attrs=()):
+def gen_input(rng, names, fav_attrs=(), items=None):
     g = Gen(rng, names, fav_attrs)
     m = rng.random()
-    if m < 0.62:
+    with_attrs = [it["s"].lower() for it in items or [] if "s" in it and b"(" in it["s"] and it["s"][:1].isalpha()]
+    if m < 0.03 and with_attrs:
+        # foreign content: attributes the parser puts into a namespace (xlink:href, xml:lang, xmlns:xlink, ...) on an
+        # element whose allow-list entry names the bare attribute; cleanTags sees the bare local name as the key
+        adjustable = (b"href", b"title", b"type", b"role", b"show", b"actuate", b"arcrole", b"lang", b"space", b"xlink")
+        def attrs_of(d):
+            return [a for a in d[d.index(b"(") + 1:].rstrip(b")").split(b" ") if a]
+        good = [d for d in with_attrs if any(a in adjustable for a in attrs_of(d))]
+        d = rng.choice(good if good and rng.random() < 0.9 else with_attrs)
+        el = d[:d.index(b"(")]
+        own = attrs_of(d) or [b"href"]
+        if any(a in adjustable for a in own) and rng.random() < 0.8:
+            own = [a for a in own if a in adjustable]
+        def ns(a):
+            a = a.split(b":")[-1]
+            q = rng.random()
+            if q < 0.7:
+                pre = b"xml:" if a in (b"lang", b"space", b"base") else b"xmlns:" if a == b"xlink" else b"xlink:"
+            else:
+                pre = rng.choice([b"xlink:", b"xml:", b"xmlns:", b"XLINK:", b""])
+            return pre + a
+        ats = b" ".join(ns(rng.choice(own)) + rng.choice([b"", b"=x", b'="a&amp;b"', b"='javascript:alert(1)'"])
+                        for _ in range(rng.choice([1, 2, 3])))
+        s = (rng.choice([b"<svg>", b"<math>", b"<svg><g>", b"<math><mrow>", b"<svg><foreignObject>", b"<svg><a>"]) +
+             b"<" + el + b" " + ats + b">" + g.text() + rng.choice([b"", b"</" + el + b">", b"</svg>"]) + g.nodes(3, rng.choice([0, 1])))
+        kind = "foreign_ns"
+    elif m < 0.62:
         s = g.nodes(0, rng.choice([1, 2, 2, 3, 4, 6]))
         kind = "grammar"
     elif m < 0.72:
@@ -212,6 +240,204 @@ def gen_input(rng, names, fav_attrs=()):
         s = bytes(rng.randrange(256) for _ in range(rng.randint(0, 60)))
         kind = "random_bytes"
     return s[:300], kind
+
+
+# ---- the deep / large stream -------------------------------------------------------------------
+# The property is stated for every input string: what comes out must not depend on how deep, how
+# wide or how long the input is.  This stream draws sizes log-uniformly over two to three orders of
+# magnitude (so that any threshold a size- or depth-triggered shortcut might use lies inside the
+# range with a good probability per case) and puts the material that must stay inert
+# (entity-encoded markup, quotes, ampersands, attributes) at the bottom AND at intermediate depths.
+# html.ParseFragment of x/net v0.27 has no nesting limit (measured: 10^6 nested <b> parse in 1.3 s;
+# elements with scope checks such as <div> are quadratic: 10^4 levels 0.6 s, 10^5 levels 77 s;
+# cleanTags itself dies of Go's 1 GB stack limit between 10^6 and 5*10^6 levels), so the bounds
+# below are budgets, not limits of the parser.
+
+# elements that really nest when repeated (the tree gets as deep as the input)
+NEST_INLINE = ["b", "i", "em", "strong", "span", "font", "code", "label", "x-foo", "u", "small", "big", "s", "tt"]
+NEST_BLOCK = ["div", "ul", "dl", "blockquote", "center", "pre", "ol", "section", "fieldset", "article"]
+NEST_FOREIGN = ["g", "svg", "desc", "mi", "math", "circle", "use"]
+# elements that do not nest in themselves (the parser closes the previous one): long sibling runs
+NEST_NOT = ["p", "a", "li", "td", "h1", "button", "nobr", "option", "form", "tr"]
+DEPTH_MAX = {"quick": 5000, "thorough": 40000}
+DEPTH_MAX_BLOCK = {"quick": 5000, "thorough": 9000}     # quadratic in the parser
+ATTRS_MAX = {"quick": 4000, "thorough": 20000}
+TEXT_MAX = {"quick": 60000, "thorough": 400000}
+WIDE_MAX = {"quick": 4000, "thorough": 20000}
+DEEP_SHARE = {"quick": 0.10, "thorough": 0.01}
+HISTORY_SHARE = 0.06
+# up to this many bytes of Gallina text the forest is handed to the model (measured: about
+# 10 us per byte of term in coqc 8.16 under load, linear now that the judge's model and checker
+# are); above it the case is judged by the oracle on Go's output and the text projection only
+MODEL_LIMIT = 90000
+
+
+def logu(rng, lo, hi):
+    return int(round(math.exp(rng.uniform(math.log(lo), math.log(hi)))))
+
+
+def payload(rng, g):
+    """Material that must come out inert, plus sometimes a small ordinary subtree."""
+    parts = []
+    for _ in range(rng.choice([1, 1, 2, 3, 4])):
+        m = rng.random()
+        if m < 0.35:
+            parts.append(rng.choice(ENC_MARKUP))
+        elif m < 0.55:
+            parts.append(rng.choice(ENTITIES))
+        elif m < 0.75:
+            parts.append(rng.choice([b"R&D", b"\"q\"", b"it's", b"1 < 2", b"a > b", b"&", b"'", b"\"", b"a&b=c&d",
+                                     b"x\ry", b"&lt;img src=x onerror=alert(1)&gt;", b"&amp;lt; &quot;q&quot;"]))
+        elif m < 0.9:
+            parts.append(g.nodes(4, rng.choice([1, 2])))
+        else:
+            parts.append(rng.choice(WORDS))
+    return b"".join(parts)
+
+
+def deep_nest(rng, g, names, tier):
+    allowed = [n for n in names if n in NEST_INLINE + NEST_BLOCK + NEST_FOREIGN]
+    mode = rng.choice(["uniform", "uniform", "runs", "mixed", "chain"])
+    pool_kind = rng.random()
+    if allowed and pool_kind < 0.45:
+        pool = allowed                               # allow-listed elements nest: tags at every level of the result
+    elif pool_kind < 0.85:
+        pool = rng.sample(NEST_INLINE + NEST_BLOCK, 3) + allowed[:2]
+    else:
+        pool = rng.sample(NEST_INLINE + NEST_BLOCK + NEST_FOREIGN + NEST_NOT, 4)
+    inline_only = all(n in NEST_INLINE for n in pool)
+    d = logu(rng, 80, DEPTH_MAX[tier] if inline_only else DEPTH_MAX_BLOCK[tier])
+    if mode == "uniform":
+        el = rng.choice(pool)
+        seq = [el] * d
+    elif mode == "runs":
+        seq = []
+        while len(seq) < d:
+            seq += [rng.choice(pool)] * logu(rng, 1, max(2, d // 2))
+        seq = seq[:d]
+    elif mode == "mixed":
+        seq = [rng.choice(pool) for _ in range(d)]
+    else:
+        unit = rng.choice([["ul", "li"], ["table", "tr", "td"], ["dl", "dd"], ["svg", "g"], ["div", "p"],
+                           ["table", "tbody", "tr", "td", "div"], ["math", "mi", "span"], ["svg", "foreignObject", "div"],
+                           ["select", "option"], ["a", "div"], ["button", "div"]])
+        seq = (unit * (d // len(unit) + 1))[:d]
+    p_attr = rng.choice([0.0, 0.0, 0.02, 0.3, 1.0])
+    if p_attr > 0.2 and d > 2500:
+        p_attr = 0.02
+    marks = set(rng.sample(range(1, d), min(d - 1, rng.choice([0, 0, 1, 2, 4, 8]))))   # payload on the way down
+    upmarks = set(rng.sample(range(1, d), min(d - 1, rng.choice([0, 0, 1, 3]))))       # ... and on the way up
+    out = []
+    for lvl, el in enumerate(seq):
+        if lvl in marks:
+            out.append(payload(rng, g))
+        nm = _case(el, rng).encode() if rng.random() < 0.02 else el.encode()
+        out.append(b"<" + nm + (g.attrs() if rng.random() < p_attr else b"") + b">")
+    out.append(payload(rng, g))
+    if rng.random() < 0.9:                          # the bottom always carries something that needs escaping
+        out.append(rng.choice(ENC_MARKUP + [b"&amp;", b"&quot;", b"&#39;", b"&lt;", b"\"", b"'", b"R&D"]))
+    cl = rng.random()
+    if cl < 0.7:
+        closes = range(d - 1, -1, -1)
+    elif cl < 0.82:
+        closes = []                                  # everything left open
+    elif cl < 0.92:
+        closes = range(d - 1, rng.randrange(d), -1)  # only the innermost levels are closed
+    else:
+        closes = range(d)                            # closed in the wrong order
+    for lvl in closes:
+        out.append(b"</" + seq[lvl].encode() + b">")
+        if lvl in upmarks:
+            out.append(payload(rng, g))
+    s = b"".join(out)
+    if rng.random() < 0.3:
+        s = g.nodes(3, 1) + s + g.nodes(3, 1)
+    return s, "deep_nest"
+
+
+def long_attrs(rng, g, names, fav, tier):
+    n = logu(rng, 40, ATTRS_MAX[tier])
+    el = rng.choice(names) if names and rng.random() < 0.7 else rng.choice(ORDINARY)
+    parts = []
+    for i in range(n):
+        m = rng.random()
+        if m < 0.5:
+            parts.append(g.attr())
+        elif m < 0.8:
+            k = rng.choice([b"data-", b"on", b"x", b"aria-"]) + str(rng.randrange(n)).encode()
+            v = rng.choice(ATTR_VALS)
+            parts.append(k + b'="' + v.replace(b'"', b"&quot;") + b'"')
+        elif fav:
+            parts.append(rng.choice(fav).encode() + b"=" + rng.choice([b"'a&amp;b'", b"\"&lt;b&gt;\"", b"x", b"\"'\"", b"'\"'"]))
+        else:
+            parts.append(b"id=" + str(i).encode())
+    if rng.random() < 0.3:       # one very long value
+        big = b"".join(rng.choice(ATTR_VALS + ENTITIES + ENC_MARKUP) for _ in range(logu(rng, 50, 3000)))
+        parts.insert(rng.randrange(len(parts) + 1), (rng.choice(fav).encode() if fav else b"title") + b'="' + big.replace(b'"', b"&#34;") + b'"')
+    sep = rng.choice([b" ", b" ", b"\n", b"\t", b"  "])
+    wrap = rng.choice([0, 0, 1, 3])
+    s = b"<div>" * wrap + b"<" + el.encode() + b" " + sep.join(parts) + b">" + payload(rng, g) + b"</" + el.encode() + b">" + b"</div>" * wrap
+    return s, "long_attrs"
+
+
+def long_text(rng, g, names, tier):
+    n = logu(rng, 2000, TEXT_MAX[tier])
+    style = rng.random()
+    parts, size = [], 0
+    while size < n:
+        if style < 0.25:
+            x = rng.choice(WORDS[:12]) + b" "
+        elif style < 0.5:
+            x = rng.choice(ENTITIES + ENC_MARKUP)
+        elif style < 0.6:
+            x = bytes(rng.choice(HOT.replace(b"<", b"")) for _ in range(8))
+        else:
+            x = g.text()
+        parts.append(x)
+        size += len(x)
+    k = rng.choice([0, 0, 1, 2, 5])                # a few tags inside the long text
+    for _ in range(k):
+        parts.insert(rng.randrange(len(parts) + 1), g.node(4))
+    body = b"".join(parts)
+    w = rng.random()
+    if w < 0.4:
+        s = body
+    elif w < 0.7:
+        el = (rng.choice(names) if names and rng.random() < 0.7 else rng.choice(ORDINARY)).encode()
+        s = b"<" + el + g.attrs() + b">" + body + b"</" + el + b">"
+    elif w < 0.85:
+        el = rng.choice(RAWTEXT).encode()
+        s = b"<" + el + b">" + body + b"</" + el + b">" + payload(rng, g)
+    else:
+        s = b"<!--" + body.replace(b"-->", b"") + b"-->" + payload(rng, g)
+    return s, "long_text"
+
+
+def wide(rng, g, names, tier):
+    n = logu(rng, 100, WIDE_MAX[tier])
+    el = (rng.choice(names) if names and rng.random() < 0.6 else rng.choice(ORDINARY + NEST_NOT)).encode()
+    unit = rng.choice([b"<%s>x</%s>" % (el, el), b"<%s>" % el, b"<%s>&lt;" % el, b"<!--c-->", b"<%s a=1>&amp;" % el,
+                       b"<br>", b"<%s>\"" % el, b"</%s>x" % el])
+    parts = [unit] * n
+    for _ in range(rng.choice([1, 2, 4])):
+        parts.insert(rng.randrange(len(parts) + 1), payload(rng, g))
+    s = b"".join(parts)
+    if rng.random() < 0.5:
+        p = (rng.choice(names) if names and rng.random() < 0.6 else rng.choice(NEST_BLOCK)).encode()
+        s = b"<" + p + b">" + s + b"</" + p + b">"
+    return s, "wide"
+
+
+def gen_deep(rng, names, fav, tier):
+    g = Gen(rng, names, fav)
+    m = rng.random()
+    if m < 0.55:
+        return deep_nest(rng, g, names, tier)
+    if m < 0.7:
+        return long_attrs(rng, g, names, fav, tier)
+    if m < 0.85:
+        return long_text(rng, g, names, tier)
+    return wide(rng, g, names, tier)
 
 
 def gen_allow(rng):
@@ -273,27 +499,166 @@ def gen_allow(rng):
     return items, names, sorted(fav)
 
 
-def hnode(n):
-    t = n["type"]
-    d = cq_bytes(unhx(n["data"]))
-    if t == "elem":
-        attrs = cq_list([cq_pair(cq_bytes(unhx(k)), cq_bytes(unhx(v))) for k, v in n.get("attrs") or []])
-        kids = cq_list([hnode(c) for c in n.get("children") or []])
-        return b"HElem " + d + b" " + attrs + b" " + kids
-    if t == "text":
-        return b"HText " + d
-    if t == "comment":
-        return b"HComment " + d
-    if t == "doctype":
-        return b"HDoctype " + d
-    return b"HOther"
+# ---- the history stream --------------------------------------------------------------------------
+# stripTags is a function of its arguments: what an earlier call was given (the same definition text in
+# another combination, the same element with other attributes, the same input) must not show in a
+# later call.  A history case carries its earlier calls with it ("before"; the harness makes them on the
+# same function value and discards their results), so a replay is self-contained.
+
+def _items(defs):
+    return [{"s": d if isinstance(d, bytes) else d.encode()} for d in defs]
 
 
-def _count(nodes, pred):
-    k = 0
-    for n in nodes or []:
-        k += bool(pred(n)) + _count(n.get("children"), pred)
-    return k
+def gen_history(rng):
+    t = rng.choice([n for n in ALLOW_ELEMS if n not in ("html", "head", "body")])
+    a = rng.sample(ALLOW_ATTRS, rng.choice([1, 1, 2, 3]))
+    b = rng.sample(ALLOW_ATTRS, rng.choice([1, 1, 2, 3]))
+    extra = rng.sample(ALLOW_ATTRS, 2)
+    def_a = "%s(%s)" % (t, " ".join(a))
+    def_b = "%s(%s)" % (t, " ".join(b))
+    others, names, fav = gen_allow(rng)
+    others = [it for it in others if "s" in it][:3]
+    g = Gen(rng, [t] + names, a + b + extra)
+
+    def elem():
+        ats = rng.sample(a + b + extra, rng.randint(1, len(a + b + extra)))
+        body = b" ".join(k.encode() + rng.choice([b"=x", b'="a&amp;b"', b"", b"='\"'", b"=1"]) for k in ats)
+        return b"<" + t.encode() + b" " + body + b">" + g.text() + b"</" + t.encode() + b">"
+
+    def inp():
+        return (g.nodes(3, rng.choice([0, 1])) + elem() + g.nodes(3, rng.choice([0, 0, 1])))[:300]
+
+    def allow():
+        m = rng.random()
+        if m < 0.2:
+            defs = [def_a, def_b]
+        elif m < 0.35:
+            defs = [def_b, def_a]
+        elif m < 0.5:
+            defs = [def_a]
+        elif m < 0.65:
+            defs = [def_b]
+        elif m < 0.75:
+            defs = [t]
+        elif m < 0.85:
+            defs = [def_a, t]
+        elif m < 0.92:
+            defs = [def_a.upper(), def_b]
+        else:
+            defs = []
+        sl = _items(defs)
+        if rng.random() < 0.3:
+            sl = sl + others if rng.random() < 0.5 else others + sl
+        r = rng.random()
+        return [sl] if r < 0.92 else [] if r < 0.96 else [sl, _items([def_b])]
+
+    same = inp()
+    before = [{"input": same if rng.random() < 0.5 else inp(), "slices": allow()} for _ in range(rng.choice([1, 1, 2, 3]))]
+    return {"input": same if rng.random() < 0.6 else inp(), "slices": allow(), "before": before}
+
+
+def _enc_slices(slices):
+    return [[({"s": hx(it["s"])} if "s" in it else {"n": it["n"]}) for it in sl] for sl in slices]
+
+
+def cq_big(b):
+    """A byte string as a Gallina term: a literal when short; otherwise packed 7 bytes per primitive
+    integer for Run.Judge_C14.unpack (a literal costs about 100 us per byte in coqc, see Judge_C14.v)."""
+    if len(b) < 8:
+        return cq_bytes(b)
+    ws = []
+    for i in range(0, len(b), 7):
+        ch = b[i:i + 7]
+        ws.append(b"%d" % (int.from_bytes(ch, "little") | (1 << (8 * len(ch)))))
+    return b"(unpack [" + b";".join(ws) + b"]%uint63)"
+
+
+class Interner:
+    """Sub-terms that occur more than once in a case (element names, attribute lists, whole tokens)
+    are bound once by a let; what occurs once is written in place (thousands of lets are slow too).
+    Keys are the data themselves: ("s", bytes) | ("a", ((k, v), ...)) | ("o", name, attrs) | ("l", ctor, data)."""
+
+    def __init__(self):
+        self.count = {}
+        self.names = {}
+        self.defs = []       # (name, term)
+
+    def see(self, key):
+        self.count[key] = self.count.get(key, 0) + 1
+        if key[0] == "a":
+            for k, v in key[1]:
+                self.see(("s", k))
+                self.see(("s", v))
+        elif key[0] == "o":
+            self.see(("s", key[1]))
+            if key[2]:
+                self.see(("a", key[2]))
+
+    def text(self, key):
+        if key[0] == "s":
+            return cq_big(key[1])
+        if key[0] == "a":
+            return cq_list([cq_pair(self.render(("s", k)), self.render(("s", v))) for k, v in key[1]])
+        if key[0] == "o":
+            return b"FOpen " + self.render(("s", key[1])) + b" " + (self.render(("a", key[2])) if key[2] else b"[]")
+        return b"FLeaf (" + key[1] + b" " + cq_big(key[2]) + b")"
+
+    def render(self, key):
+        if self.count.get(key, 0) < 2:
+            return self.text(key)
+        nm = self.names.get(key)
+        if nm is None:
+            body = self.text(key)
+            nm = b"%s%d_" % (key[0].encode(), len(self.defs))
+            self.names[key] = nm
+            self.defs.append((nm, body))
+        return nm
+
+    def wrap(self, body):
+        return b"".join(b"let " + nm + b" := " + t + b" in " for nm, t in self.defs) + body
+
+
+def cq_toks(toks):
+    """The forest's tokens (harness format) as a Gallina [list ftok] (under lets for repeated parts)."""
+    keys = []
+    for t in toks:
+        k = t["k"]
+        if k == "o":
+            keys.append(("o", unhx(t.get("d", "")), tuple((unhx(a), unhx(v)) for a, v in t.get("a") or [])))
+        elif k == "c":
+            keys.append(None)
+        elif k in ("t", "m", "y"):
+            keys.append(("l", {"t": b"HText", "m": b"HComment", "y": b"HDoctype"}[k], unhx(t.get("d", ""))))
+        else:
+            keys.append(False)
+    it = Interner()
+    for key in keys:
+        if key:
+            it.see(key)
+    out = [b"FClose" if key is None else b"FLeaf HOther" if key is False else it.render(key) for key in keys]
+    return it.wrap(b"[" + b";".join(out) + b"]")
+
+
+def _count(toks, pred):
+    return sum(1 for t in toks or [] if pred(t))
+
+
+def _elem(t, names):
+    return t["k"] == "o" and unhx(t.get("d", "")) in names
+
+
+def _bucket(n, edges):
+    lo = 0
+    for e in edges:
+        if n < e:
+            return "%d-%d" % (lo, e - 1)
+        lo = e
+    return ">=%d" % lo
+
+
+def _clip(b, n=400):
+    s = b.decode("latin-1")
+    return s if len(s) <= n else s[:n // 2] + "...[%d bytes]..." % len(s) + s[-n // 2:]
 
 
 class C14(Prop):
@@ -304,37 +669,82 @@ class C14(Prop):
     prop_file = "Props/C14.v"
     coq_targets = ["Props/C14.vo", "Run/Judge_C14.vo"]
     sizes = {"quick": 1000, "thorough": 100000}
-    shard = 250
+    shard = 100
     design_ref = "DESIGN.md section 6 C14"
-    rule = ("inputs: grammar-based HTML fragments (nesting, unclosed/mis-nested tags, raw-text elements, svg/math "
-            "integration points, comments, CDATA, bogus comments, doctypes, entity- and double-entity-encoded markup, "
-            "attribute soup in every quoting style, upper case), byte-level mutations of those, hot-alphabet and random "
-            "bytes (valid and invalid UTF-8), at most 300 bytes; allow-lists: random subsets of ordinary elements with "
-            "random attribute lists, upper-case definitions, duplicates, malformed definitions, empty list, zero or two "
-            "list arguments.  Non-trivial = the parsed forest has an element below body other than html/head/body, or "
+    rule = ("inputs, ordinary streams (about 85% of the quick tier, at most 300 bytes each): grammar-based HTML fragments "
+            "(nesting, unclosed/mis-nested tags, raw-text elements, svg/math integration points, comments, CDATA, bogus "
+            "comments, doctypes, entity- and double-entity-encoded markup, attribute soup in every quoting style, upper "
+            "case), namespaced attributes (xlink:, xml:, xmlns:) in svg/math content on elements whose allow-list entry "
+            "names the bare attribute, byte-level mutations of those, hot-alphabet and random bytes (valid and invalid "
+            "UTF-8).  Deep/large "
+            "stream (about 10% of the quick tier, 1% of the thorough tier; sizes log-uniform so that any size or depth "
+            "threshold inside the range is crossed by a good share of the cases): deep_nest = 80..5000 (thorough: "
+            "..40000 for inline elements, ..9000 for elements with scope checks, which cost the parser quadratic time) "
+            "levels of allow-listed and/or not allow-listed elements (one element repeated, runs, random mixtures, "
+            "ul/li, table/tr/td, svg/g, math/mi chains, also elements the parser refuses to nest), with or without "
+            "attributes per level, with entity-encoded markup, quotes, ampersands and small ordinary subtrees at the "
+            "bottom and at up to 8 intermediate depths on the way down and up, closed fully / not at all / partly / in "
+            "the wrong order; long_attrs = one element with 40..4000 attributes (allowed, not allowed, duplicates, "
+            "values with quotes and entities, sometimes one value of up to 30 kB); long_text = 2..60 kB (thorough: "
+            "..400 kB) of words, entities, encoded markup in a text node, allowed element, raw-text element or comment; "
+            "wide = 100..4000 siblings.  History stream (6% of the cases): a case carries 1-3 earlier calls that the "
+            "harness makes on the same function value before the observed call, results discarded - the same "
+            "definition text in another combination (t(A) next to t(B), either order, alone, upper case, bare t), "
+            "the same element with attributes from A, B and others, the same or another input; the result must not "
+            "depend on them.  html.ParseFragment (x/net v0.27.0) itself has no depth limit (measured: 10^6 "
+            "nested <b> parse in 1.3 s; cleanTags exhausts Go's 1 GB stack between 10^6 and 5*10^6 levels, which kills "
+            "the process and is outside this property), so these bounds are time budgets.  allow-lists: random subsets "
+            "of ordinary elements with random attribute lists, upper-case definitions, duplicates, malformed "
+            "definitions, empty list, zero or two list arguments.  All cases of a run go through one harness process, "
+            "in order (state that survived a call would show in later cases too).  Judging: the SafeDoc checker (linear, "
+            "in Coq) and the x/net/html tokenizer oracle run on Go's own output in every case, whatever its size; the "
+            "forest ParseFragment returned is handed to the model flat (document order, any depth) and Go's output is "
+            "compared with the model's byte for byte as long as the forest's Gallina text is at most 90 kB (measured: "
+            "about 10-40 us of coqc time per byte; 8000 levels of one repeated element fit, a few hundred levels when "
+            "every level has its own attributes; in the quick tier all but 2-4 cases per run are below the limit); for larger "
+            "forests only the forest's character data is handed over and the comparison is the text projection proved "
+            "in C14_text_escaped (text between the tags of the result = escaped character data of the forest) - "
+            "evidence field judged_without_model_forest counts them; off-domain allow-lists are then counted "
+            "unmodelled.  Non-trivial = the parsed forest has an element below body other than html/head/body, or "
             "a text node with a character that must be escaped; distinct by SHA-1 of the case")
     trusted = [
         "golang.org/x/net/html ParseFragment is outside the model: every theorem quantifies over all node forests, and "
-        "the judge feeds the model the forest ParseFragment returned for the same input (dumped by the harness)",
+        "the judge feeds the model the forest ParseFragment returned for the same input (dumped by the harness as a flat "
+        "token list in document order, read back by Models.Strip.build_forest; C14_flat_roundtrip: the encoding loses "
+        "nothing)",
         "html.EscapeString is modelled as esc6 (the six characters & ' < > \" CR of escape.go); compared on every case",
         "strings.ToLower is modelled for ASCII only; a definition on which Go's Unicode mapping differs is counted unmodelled",
         "what a browser makes of the output is represented by the SafeDoc grammar (Models/Strip.v) and by the "
         "x/net/html Tokenizer run over Go's output in the harness, not by a model of the HTML5 tokenizer",
         "tools/extract prints pugjs.SelfClosingTags faithfully into Gen/Tables.v",
+        "case files: byte strings of 8 bytes or more are written as primitive 63-bit integers, 7 bytes each, and decoded "
+        "by Run.Judge_C14.unpack (decoder only, self-test unpack_example; no theorem mentions primitive integers); "
+        "repeated sub-terms of a forest are let-bound by the emitter (gen/c14.py Interner)",
+        "the judge runs the model as striptags_fast (accumulator, no copying per level); C14_fast_model: it is striptags",
     ]
     assumptions = [
         "allow_ok allow = true: every allow-listed element name starts with an ASCII letter, element and attribute "
         "names are non-empty and contain none of < > \" ' & = / or white space",
         "judge domain additionally: no raw-text element (script, style, textarea, title, xmp, noscript, noframes, "
         "noembed, iframe, plaintext) is allow-listed",
+        "inputs nested deeper than about 10^6 levels make cleanTags (and any recursive consumer of the tree) exhaust the "
+        "goroutine stack; not generated",
     ]
     not_yet_proved = []
 
     def generate(self, rng, n, tier):
         cases = []
         for _ in range(n):
+            if rng.random() < HISTORY_SHARE:
+                h = gen_history(rng)
+                cases.append({"input": hx(h["input"]), "kind": "history", "slices": _enc_slices(h["slices"]),
+                              "before": [{"input": hx(b["input"]), "slices": _enc_slices(b["slices"])} for b in h["before"]]})
+                continue
             items, names, fav = gen_allow(rng)
-            inp, kind = gen_input(rng, names, fav)
+            if rng.random() < DEEP_SHARE.get(tier, 0.1):
+                inp, kind = gen_deep(rng, names, fav, tier)
+            else:
+                inp, kind = gen_input(rng, names, fav, items)
             m = rng.random()
             if m < 0.9:
                 slices = [items]
@@ -342,46 +752,68 @@ class C14(Prop):
                 slices = []
             else:
                 slices = [items, gen_allow(rng)[0]]
-            cases.append({"input": hx(inp), "kind": kind,
-                          "slices": [[({"s": hx(it["s"])} if "s" in it else {"n": it["n"]}) for it in sl]
-                                     for sl in slices]})
+            cases.append({"input": hx(inp), "kind": kind, "slices": _enc_slices(slices)})
         return cases
+
+    def run(self, binary, cases, tmp, tier):
+        # quick: small shards so that the few large cases spread over more coqc processes;
+        # thorough: fewer coqc start-ups
+        self.shard = 100 if tier == "quick" else 250
+        return run_harness(binary, self.engine, cases)
 
     def emit(self, case, obs):
         sl = cq_list([cq_list([(cq_opt(cq_bytes(unhx(it["s"]))) if "s" in it else b"None") for it in s])
                       for s in case["slices"]])
-        forest = cq_list([hnode(n) for n in obs["forest"] or []])
-        return (b"{| slices := " + sl + b"; forest := " + forest + b"; go_out := " + cq_bytes(unhx(obs["out"])) +
+        toks = None if obs.get("toks_cut") else cq_toks(obs["toks"])
+        cmp_model = toks is not None and len(toks) <= MODEL_LIMIT
+        obs["cmp_model"] = cmp_model
+        return (b"{| slices := " + sl + b"; toks := " + (toks if cmp_model else b"[]") +
+                b"; text := " + cq_big(unhx(obs["text"])) + b"; go_out := " + cq_big(unhx(obs["out"])) +
                 b"; tok_ok := " + cq_bool(obs["tok_ok"]) +
-                b"; modelled := " + cq_bool(obs["modelled"] and obs["class"] == "ok") + b" |}")
+                b"; modelled := " + cq_bool(obs["modelled"] and obs["class"] == "ok") +
+                b"; cmp_model := " + cq_bool(cmp_model) + b" |}")
 
     def nontrivial(self, case, obs):
-        def interesting(n):
-            if n["type"] == "elem":
-                return unhx(n["data"]) not in (b"html", b"head", b"body")
-            if n["type"] == "text":
-                return any(ch in unhx(n["data"]) for ch in b"<>&\"'\r")
+        if obs.get("toks_cut"):
+            return True
+        def interesting(t):
+            if t["k"] == "o":
+                return unhx(t.get("d", "")) not in (b"html", b"head", b"body")
+            if t["k"] == "t":
+                return any(ch in unhx(t.get("d", "")) for ch in b"<>&\"'\r")
             return False
-        return _count(obs["forest"], interesting) > 0
+        return _count(obs["toks"], interesting) > 0
 
     def sample(self, case, obs):
-        return {"input": unhx(case["input"]).decode("latin-1"),
+        return {"input": _clip(unhx(case["input"])),
                 "allow": [[(unhx(it["s"]).decode("latin-1") if "s" in it else it["n"]) for it in s] for s in case["slices"]],
-                "go_out": unhx(obs["out"]).decode("latin-1"), "tokenizer_oracle": obs["tok_ok"],
-                "tokenizer_reason": obs.get("tok_reason", "")}
+                "go_out": _clip(unhx(obs["out"])), "tokenizer_oracle": obs["tok_ok"],
+                "tokenizer_reason": obs.get("tok_reason", ""), "forest_depth": obs.get("depth"),
+                "forest_nodes": obs.get("nodes"),
+                "earlier_calls": [{"input": _clip(unhx(b["input"])),
+                                   "allow": [[(unhx(it["s"]).decode("latin-1") if "s" in it else it["n"]) for it in s]
+                                             for s in b["slices"]]} for b in case.get("before") or []]}
 
     def shrink(self, case):
         inp = unhx(case["input"])
         n = len(inp)
+        # large inputs: few, coarse candidates per round (every candidate is judged in Coq)
+        cap = 200 if n <= 600 else 48 if n <= 4000 else 20
+        k = 0
         step = max(1, n // 2)
-        while step >= 1:
+        while step >= 1 and k < cap:
             for a in range(0, n, step):
                 c = dict(case)
                 c["input"] = hx(inp[:a] + inp[a + step:])
                 yield c
+                k += 1
             if step == 1:
                 break
             step //= 2
+        for i in range(len(case.get("before") or [])):
+            c = dict(case)
+            c["before"] = case["before"][:i] + case["before"][i + 1:]
+            yield c
         for si, s in enumerate(case["slices"]):
             for i in range(len(s)):
                 c = dict(case)
@@ -390,13 +822,18 @@ class C14(Prop):
                 yield c
 
     def model_expr(self):
-        return "(striptags (slices c) (forest c), allow14 c, dom_C14 (allow14 c), oracle14 c)"
+        return ("(cmp_model c, striptags_fast (slices c) (forest c), esc6 (text c), allow14 c, dom_C14 (allow14 c), "
+                "oracle14 c)")
 
     def distribution(self, cases, obss):
         d = {"kind": {}, "empty_allow": 0, "not_one_slice": 0, "go_out_has_tag": 0, "go_out_has_attr": 0,
              "input_has_entity": 0, "input_has_rawtext_elem": 0, "forest_has_comment": 0, "forest_foreign": 0,
-             "unmodelled": 0, "tokenizer_rejects": 0, "mean_input_len": 0, "max_input_len": 0}
+             "unmodelled": 0, "tokenizer_rejects": 0, "mean_input_len": 0, "max_input_len": 0,
+             "forest_depth": {}, "deep_with_escapable_text": 0, "deep_with_tags_in_result": 0,
+             "longest_attr_list": {}, "go_out_len": {}, "max_forest_depth": 0, "max_go_out_len": 0,
+             "judged_without_model_forest": 0}
         tot = 0
+        rawtext = set(x.encode() for x in RAWTEXT)
         for c, o in zip(cases, obss):
             k = c.get("kind", "corpus")
             d["kind"][k] = d["kind"].get(k, 0) + 1
@@ -409,11 +846,24 @@ class C14(Prop):
             d["go_out_has_tag"] += b"<" in out
             d["go_out_has_attr"] += b'="' in out
             d["input_has_entity"] += b"&" in inp
-            d["input_has_rawtext_elem"] += _count(o["forest"], lambda n: n["type"] == "elem" and unhx(n["data"]).decode("latin-1") in RAWTEXT) > 0
-            d["forest_has_comment"] += _count(o["forest"], lambda n: n["type"] == "comment") > 0
-            d["forest_foreign"] += _count(o["forest"], lambda n: n["type"] == "elem" and unhx(n["data"]) in (b"svg", b"math")) > 0
+            d["input_has_rawtext_elem"] += _count(o["toks"], lambda t: _elem(t, rawtext)) > 0
+            d["forest_has_comment"] += _count(o["toks"], lambda t: t["k"] == "m") > 0
+            d["forest_foreign"] += _count(o["toks"], lambda t: _elem(t, (b"svg", b"math"))) > 0
             d["unmodelled"] += not o["modelled"]
             d["tokenizer_rejects"] += not o["tok_ok"]
+            b = _bucket(o.get("depth", 0), [16, 64, 256, 1024, 4096, 16384])
+            d["forest_depth"][b] = d["forest_depth"].get(b, 0) + 1
+            d["max_forest_depth"] = max(d["max_forest_depth"], o.get("depth", 0))
+            if o.get("depth", 0) >= 256:
+                d["deep_with_escapable_text"] += any(ch in unhx(o["text"]) for ch in b"<>&\"'")
+                d["deep_with_tags_in_result"] += b"<" in out
+            b = _bucket(o.get("max_attrs", 0), [8, 64, 512, 4096])
+            d["longest_attr_list"][b] = d["longest_attr_list"].get(b, 0) + 1
+            b = _bucket(len(out), [1024, 8192, 65536, 524288])
+            d["go_out_len"][b] = d["go_out_len"].get(b, 0) + 1
+            d["max_go_out_len"] = max(d["max_go_out_len"], len(out))
+            d["judged_without_model_forest"] += not o.get("cmp_model", True)
+            d["earlier_calls"] = d.get("earlier_calls", 0) + len(c.get("before") or [])
         d["mean_input_len"] = round(tot / max(1, len(cases)), 1)
         return d
 
